@@ -366,3 +366,64 @@ def loop_counts_exact(ctx, spec, rule='L1', only=None, floor=10):
                              [c.split('::')[-1] for c in calls], consts)), None,
                          key='%s|%s|count|%d' % (fn, rule, len(seen)))
     ctx.floor('repeat counts examined', n, floor)
+
+
+def tile_words(ctx, rule='L2'):
+    """tile words of a tilemap cel are decoded with the masks of *this cel's* bitmask header: id = word & header.tile_id,
+    flips = (word & header.x_flip / y_flip / rotate_90cw) != 0, for every 4-byte group of the inflated data, in order"""
+    from q import walk, show, res, is_param, strip_casts, expand
+    fx = ctx.fx
+    FIELDS = {'id': 'tile_id', 'flip_x': 'x_flip', 'flip_y': 'y_flip', 'rotate_90cw': 'rotate_90cw'}
+    n = 0
+    for b in fx.bodies:
+        if b.kind == 'promoted' or b.name == 'asefile::tile::EMPTY_TILE' or b.name.startswith('asefile::<'):
+            continue          # (derived impls such as Clone copy an existing tile)
+        for bb, st, t in q.stmt_aggs(b, 'asefile::tile::Tile'):
+            n += 1
+            f = dict(expand(t, fx, 2, noinl(fx))[3])
+            words = set()
+            hdrs = set()
+            ok = True
+            desc = []
+            for fld, mask in FIELDS.items():
+                v = f.get(fld, ('unknown',))
+                ands = [x for x in walk(v) if isinstance(x, tuple) and x[0] == 'bin' and x[1] == 'BitAnd']
+                good = False
+                for a in ands:
+                    for w_, m_ in ((a[2], a[3]), (a[3], a[2])):
+                        m_ = strip_casts(m_)
+                        if m_[0] == 'field' and m_[2] == mask:
+                            good = True
+                            words.add(strip_casts(w_))
+                            hdrs.add(m_[1])
+                if fld != 'id' and good:
+                    # a flag is "bit set", not "bit clear"
+                    good = any(x[0] == 'bin' and x[1] == 'Ne' and q.const_val(x[3]) == 0 for x in walk(v)) or \
+                        any(x[0] == 'bin' and x[1] == 'Eq' and strip_casts(x[3])[0] == 'field' for x in walk(v))
+                ok = ok and good
+                desc.append('%s %s header.%s' % (fld, 'masked with' if good else 'NOT masked with', mask))
+            one = len(words) == 1 and len(hdrs) == 1 and all(is_param(h) or (h[0] == 'field') or h[0] == 'call' for h in hdrs)
+            ctx.inst(rule, 'Tile@' + b.name.split('asefile::')[-1], ok and one, 'Tile{..} built in %s: %s; one word and one header: %s'
+                     % (b.name.split('asefile::')[-1], '; '.join(desc), one), st.get('span'), key=ctx.key(b.name, rule, 'tile-word', ''))
+    ctx.floor('Tile constructions', n, 1)
+    pc = fx.body('asefile::tilemap::TilemapData::parse_chunk')
+    if pc is not None:
+        cs = q.calls(pc, 'asefile::tile::Tiles::unzip')
+        for c in cs:
+            hdr = q.arg_terms(c)[2]
+            okh = hdr[0] == 'call' and hdr[1].endswith('TileBitmaskHeader::parse') or \
+                (hdr[0] == 'agg' and (hdr[1] or '').endswith('TileBitmaskHeader'))
+            ctx.inst(rule, 'Tiles::unzip#header', okh, 'tiles are decoded with header %s; must be the bitmask header parsed from this tilemap cel' % show(hdr)[:100],
+                     c.span, key=pc.name + '|%s|tile-header' % rule)
+    uz = fx.body('asefile::tile::Tiles::unzip')
+    if uz is not None:
+        # form-independent: the inflated bytes are walked with chunks_exact(4) and nothing reorders / skips / truncates the walk
+        names = [(c_.callee, c_) for b2 in [uz] + fx.closures_of(uz) for c_ in q.calls(b2)]
+        ce = [c_ for nm, c_ in names if nm.split('::')[-1] == 'chunks_exact']
+        four = bool(ce) and all(q.const_val(q.arg_terms(c_)[1]) == 4 for c_ in ce)
+        bad = sorted({nm.split('::')[-1] for nm, c_ in names if nm.startswith(('std::iter::Iterator::', 'core::slice::', 'std::vec::Vec::')) and
+                      nm.split('::')[-1] in ('rev', 'skip', 'step_by', 'filter', 'take', 'rchunks', 'rchunks_exact', 'skip_while', 'take_while', 'reverse',
+                                             'sort', 'swap', 'truncate', 'pop', 'remove', 'insert', 'dedup', 'retain')})
+        okc = four and not bad
+        ctx.inst(rule, 'Tiles::unzip#order', okc, 'the inflated bytes are walked with chunks_exact(4) (%s), reordering / skipping calls: %s' % (four, bad or 'none'),
+                 uz.span, key=uz.name + '|%s|tile-order' % rule)
